@@ -49,6 +49,31 @@ def gates_mismatch(row):
     return []
 
 
+def value_variants(b):
+    """The handles and gate counts a call returns do not depend on the values assigned (the specification's bookkeeping never reads them):
+    the same behaviour re-instantiated with other assignments - all zero, and three rotations of (0, 1, -1, 7) over the value-bearing
+    calls - must return the same handles on both sides. (The gate-assignment expectation belongs to the original values and is dropped.)"""
+    out = []
+    pats = [("z", [0]), ("r0", [0, 1, -1, 7]), ("r1", [1, -1, 7, 0]), ("r2", [-1, 7, 0, 1])]
+    for name, pat in pats:
+        w = json.loads(json.dumps(b))
+        k = 0
+        hit = False
+        for lst in [w["p"]["ops"]] + w["p"].get("cbs", []):
+            for o in lst:
+                if o.get("op") == "alloc" and o.get("a") is not None:
+                    o["a"] = pat[k % len(pat)]; k += 1; hit = True
+                elif o.get("op") == "allocmul":
+                    o["l"] = pat[k % len(pat)]; o["r"] = pat[(k + 1) % len(pat)]; k += 2; hit = True
+                elif o.get("op") == "commit":
+                    o["v"] = pat[k % len(pat)]; k += 1
+        if hit:
+            w.pop("gates", None)
+            w["id"] = b["id"] + "-val-" + name
+            out.append(w)
+    return out
+
+
 def multi_callback(prog):
     return sum(1 for cb in prog["p"].get("cbs", []) if cb) > 1
 
@@ -93,13 +118,19 @@ def run(chk):
         # this property is about handles, gate counts and the closing of half gates - observed directly (returned values, the prover's
         # assignment through the hook), not through verdicts: whether proofs verify is C01's and C02's business
         bs = [dict(b, expect_v="", expect_p=b["expect_p"] if b["expect_p"] != "ok" else "") for b in behs]
+        if c in ("secq256k1", "curve25519"):
+            # value independence of the bookkeeping: the same call sequences under other assignments (zeros, ones, minus ones)
+            vs = [w for k, b in enumerate(bs) if not b.get("vskip") for w in value_variants(b)]
+            if chk.quick:
+                vs = vs[::2] if c == "secq256k1" else vs[1::2]
+            bs = bs + vs
         rows = vlib.replay(chk, c, bs, "mcb")
         report(chk, rows, "handles")
     chk.finish(
         rule="TLC enumerates every lock-step call sequence of at most %d calls over {commit, allocate(Some/None), allocate_multiplier, multiply, "
              "constrain, specify_randomized_constraints, phase switch, challenge_scalar} (invariants), and prints one behaviour per state of the "
              "depth-%d model; each behaviour is replayed through the real Prover and Verifier on %s, comparing every returned handle, error kind and "
-             "gate count call by call, and the prover's final assignment of every gate (read through the hook) with the model's - a half gate left open at a phase end must read (a, 0, 0). distinct = distinct programs with at least one call" % (depth_inv, depth_gen, ", ".join(curves)),
+             "gate count call by call, and the prover's final assignment of every gate (read through the hook) with the model's - a half gate left open at a phase end must read (a, 0, 0); on two curves every behaviour is also replayed under other assignments (all zero; rotations of 0, 1, -1, 7): handles and gate counts must not depend on the values. distinct = distinct programs with at least one call" % (depth_inv, depth_gen, ", ".join(curves)),
         assumptions=["second-phase calls of a behaviour are distributed over the registered callbacks in every way (NextCb)",
                      "verdicts on the 256-bit curves are ideal (soundness error 2^-250 ignored); toy31723 programs use values 2,3 only, so no coincidences arise"],
         extra={"exhaustive": True})
